@@ -11,6 +11,7 @@ def sh(cmd,timeout=1500):
 def clean(): sh('git checkout -- . && git clean -fdq')
 clean()
 demo=meta['demo']
+if len(sys.argv)>3: demo=sys.argv[3]
 # normalise the demo command
 m=re.match(r'^\s*(cp \S+ \S+ && go test .*?-count=1(?: -v)?)', demo)
 demo=m.group(1) if m else demo.split('   (')[0].split('  (')[0]
@@ -20,7 +21,7 @@ rc,out=sh('git apply '+shlex.quote(os.path.join(d,'patch.diff')))
 res['patch_applies']=rc==0
 rc,out=sh('go build ./... ')
 res['builds']=rc==0
-tests=[t for t in meta.get('tests_run',[]) if t.startswith('go test')]
+tests=[t.split(' (')[0] for t in meta.get('tests_run',[]) if t.startswith('go test')]
 ok=True
 for t in tests:
     rc,out=sh('timeout 1200 '+t)
